@@ -165,9 +165,10 @@ Definition RInv (s : state) : Prop :=
 (* the configuration of the code as it is (both fixes in) *)
 Definition fixed (c : config) : Prop := persist_first c = true /\ clean_orphans c = true.
 
-(* schedule hypothesis: at most one snapshot goroutine is between "snap file written" and "marker written" *)
-Definition single_window (s : state) : Prop :=
-  forall i1 i2, sn_lookup i1 (sns s) = Some SnFile -> sn_lookup i2 (sns s) = Some SnFile -> i1 = i2.
+(* schedule hypothesis: fewer snapshot goroutines than files the snap purge keeps are between "snap file written"
+   and "WAL marker written" (the code keeps at least 2 files, so one such goroutine is always fine) *)
+Definition win_count (l : list (N * sn_pc)) : nat := length (filter (fun q => sn_pc_eqb (snd q) SnFile) l).
+Definition window_ok (c : config) (s : state) : Prop := (win_count (sns s) < eff_keep_snap c)%nat.
 
 Definition Inv (c : config) (s : state) : Prop :=
   exists hi, PInv s hi /\ (if running s then VInv c s hi else RInv s).
